@@ -711,6 +711,11 @@ class World:
         if 0 < hd["owner"] <= len(self.procs):
             self.proc(hd["owner"]).idle = 0
         self.ev(e="jobexit", job=hd["job"], rc=rc, b=self._bnum(hd.get("batch")))
+        # a job whose work is to write the next pipeline stage's configuration file (pipelines built from files)
+        regen = getattr(self, "regen", {}).get(hd["job"])
+        if regen:
+            shutil.copyfile(regen["src"], regen["dst"])
+            self.ev(e="regen", job=hd["job"], stage=regen["stage"])
 
     def kill_proc(self, p, why="kill"):
         """SIGKILL one virtual process (and, since they are its children, its nested commands and jobs)."""
